@@ -34,7 +34,10 @@ git -C /repo worktree remove --force "$W"
 [ -z "$(git -C /repo status --porcelain --untracked-files=no)" ] || { echo "/repo dirty"; exit 2; }
 git -C /repo apply "$src/patch.diff" || exit 2
 caught=""
-for c in $(python3 -c "import json;print(' '.join(c['property_id'] for c in json.load(open('$V/MANIFEST.json'))['checks']))"); do
+checks="$(python3 -c "import json;print(' '.join(c['property_id'] for c in json.load(open('$V/MANIFEST.json'))['checks']))")"
+# SEED_CHECKS=own: only the check of the seed's own property (fast); default: every check (the "caught by" matrix)
+[ "${SEED_CHECKS:-all}" = own ] && checks="$id"
+for c in $checks; do
   out="$(cd $V && ./run quick "$c" 2>&1)"; rc=$?
   if [ $rc -eq 1 ]; then caught="$caught $c"; echo "  $c CAUGHT: $(echo "$out" | grep -m1 'violation detail' | cut -c1-200)";
   elif [ $rc -ne 0 ]; then echo "  $c rc=$rc: $(echo "$out" | tail -n 2 | cut -c1-200)"; fi
